@@ -576,6 +576,9 @@ def zoo_cases(ctx, rng=None):
         yield c
     for c in expr_cases(ctx, rng, mk):
         yield c
+    # --- round 4: n-d leaves (axis matrices, F-order flattening, n-d sampling) and trees over them
+    for c in nd_cases(ctx, rng, mk):
+        yield c
     for c in hidden_cases(ctx, rng, mk):
         yield c
     for c in minimal_cases(ctx, rng, mk):
@@ -981,10 +984,12 @@ def matrix_cases(ctx, rng, mk):
         M = rand_mat(rng, 2, 3 if axis == 1 else 2)
         dom = odl.rn((2, 3))
         yield mk('MatrixOperator', 'domw=none ndim=2 axis={}'.format(axis),
-                 lambda M=M, dom=dom, axis=axis: odl.MatrixOperator(M, domain=dom, axis=axis))
+                 lambda M=M, dom=dom, axis=axis: odl.MatrixOperator(M, domain=dom, axis=axis),
+                 ('matrixaxis', M, None, None, axis))
         domd = odl.uniform_discr([0, 0], [1, 3], (2, 3))
         yield mk('MatrixOperator', 'domw=discr ndim=2 axis={}'.format(axis),
-                 lambda M=M, domd=domd, axis=axis: odl.MatrixOperator(M, domain=domd, axis=axis))
+                 lambda M=M, domd=domd, axis=axis: odl.MatrixOperator(M, domain=domd, axis=axis),
+                 ('matrixaxis', M, None, None, axis))
     M = rand_mat(rng, 2, 3)
 
     def _custom():
@@ -996,10 +1001,11 @@ def matrix_cases(ctx, rng, mk):
     M = rand_mat(rng, 2, 2)
     yield mk('MatrixOperator', 'domw=array ndim=2 axis=0',
              lambda M=M: odl.MatrixOperator(M, domain=odl.rn((2, 3), weighting=np.array(
-                 [[1.0, 2.0, 4.0], [2.0, 1.0, 0.5]])), axis=0))
+                 [[1.0, 2.0, 4.0], [2.0, 1.0, 0.5]])), axis=0), ('matrixaxis', M, None, None, 0))
     yield mk('MatrixOperator', 'domw=const ranw=const ndim=2 axis=1 explicit-range unequal',
              lambda M=M: odl.MatrixOperator(M, domain=odl.rn((3, 2), weighting=2.0),
-                                            range=odl.rn((3, 2), weighting=0.5), axis=1))
+                                            range=odl.rn((3, 2), weighting=0.5), axis=1),
+             ('matrixaxis', M, None, None, 1))
     if not quick:
         import scipy.sparse
         M = rand_mat(rng, 3, 3)
@@ -1077,9 +1083,11 @@ def sampling_cases(ctx, rng, mk):
     S2 = odl.uniform_discr([0, 0], [1, 2], (2, 4))
     for variant in ('point_eval', 'integrate'):
         yield mk('SamplingOperator', 'dom={} pts=dup2d variant={}'.format(sp_sig(S2), variant),
-                 lambda variant=variant: odl.SamplingOperator(S2, [[0, 1, 1, 0], [0, 3, 3, 2]], variant))
+                 lambda variant=variant: odl.SamplingOperator(S2, [[0, 1, 1, 0], [0, 3, 3, 2]], variant),
+                 ('sampling', S2, [[0, 1, 1, 0], [0, 3, 3, 2]], variant))
     yield mk('WeightedSumSamplingOperator', 'ran={} pts=dup2d variant=dirac'.format(sp_sig(S2)),
-             lambda: odl.WeightedSumSamplingOperator(S2, [[0, 1, 1], [1, 3, 3]], 'dirac'))
+             lambda: odl.WeightedSumSamplingOperator(S2, [[0, 1, 1], [1, 3, 3]], 'dirac'),
+             ('wsum', S2, [[0, 1, 1], [1, 3, 3]], 'dirac'))
     fl = [odl.rn((2, 3)), odl.uniform_discr([0, 0], [1, 3], (2, 3)),
           odl.uniform_discr([0, 0], [1, 1.5], (2, 3)), odl.rn((2, 2), weighting=2.0),
           odl.cn((2, 2)), odl.rn(3), odl.uniform_discr(0, 1.5, 3),
@@ -1092,6 +1100,101 @@ def sampling_cases(ctx, rng, mk):
             yield mk('FlatteningOperatorInverse', 'dom={} order={}'.format(sp_sig(S), order),
                      lambda S=S, order=order: odl.FlatteningOperator(S, order).inverse,
                      ('flatteninv', S, order))
+
+
+def nd_cases(ctx, rng, mk):
+    """round 4 stream: the n-d leaves of the model (MatrixOperator along an axis, F-order
+    flattening, n-d sampling) on several ranks / shapes / weightings, alone and inside
+    expression trees (so that `adj_sound` over the proved leaf contracts is what is compared)"""
+    odl = odl_()
+    from odl.operator import operator as opm
+    shapes = [(2, 3), (3, 2), (2, 2, 3)]
+    if not ctx.quick:
+        shapes += [(3, 1, 2), (2, 3, 2, 2), (1, 4), (4, 1)]
+
+    def spaces(sh):
+        nd = len(sh)
+        yield 'none', odl.rn(sh)
+        yield 'const', odl.rn(sh, weighting=2.0)
+        yield 'discr', odl.uniform_discr([0] * nd, [n / 2.0 for n in sh], sh)
+        yield 'cplx-const', odl.cn(sh, weighting=0.5)
+        arr = np.array([2.0 ** ((i % 5) - 2) for i in range(int(np.prod(sh)))]).reshape(sh)
+        yield 'array', odl.rn(sh, weighting=arr)
+        if not ctx.quick:
+            yield 'cdiscr', odl.uniform_discr([0] * nd, [n / 2.0 for n in sh], sh, dtype='complex128')
+
+    for sh in shapes:
+        shs = 'x'.join(map(str, sh))
+        for wtag, S in spaces(sh):
+            cplx = is_cplx(S)
+            ctx.hit('nd/rank-{}'.format(len(sh)))
+            ctx.hit('nd/weight-' + wtag)
+            for axis in range(len(sh)):
+                m = rng.choice([1, 2, 3])
+                M = rand_mat(rng, m, sh[axis], cplx and rng.random() < 0.7)
+                rsh = tuple(m if a == axis else n for a, n in enumerate(sh))
+                for rtag, rw in (('default', None), ('const4', 4.0)):
+                    if wtag == 'array':
+                        # bare transpose on n-d array weightings = open finding F7, witnessed (and
+                        # its model branch tied) by the case `domw=array ndim=2 axis=0` above
+                        continue
+
+                    def build(M=M, S=S, axis=axis, rw=rw, rsh=rsh):
+                        if rw is None:
+                            return odl.MatrixOperator(M, domain=S, axis=axis)
+                        return odl.MatrixOperator(M, domain=S, axis=axis, range=odl.tensor_space(
+                            rsh, dtype=S.dtype, weighting=rw))
+                    yield mk('MatrixOperator', 'nd shape={} domw={} axis={} rows={} ran={}'.format(
+                        shs, wtag, axis, m, rtag), build, ('matrixaxis', M, None, None, axis))
+            for order in ('F',):
+                yield mk('FlatteningOperator', 'nd shape={} domw={} order={}'.format(shs, wtag, order),
+                         lambda S=S, order=order: odl.FlatteningOperator(S, order),
+                         ('flatten', S, order))
+                yield mk('FlatteningOperatorInverse', 'nd shape={} domw={} order={}'.format(shs, wtag, order),
+                         lambda S=S, order=order: odl.FlatteningOperator(S, order).inverse,
+                         ('flatteninv', S, order))
+            npts = rng.choice([1, 3, 4])
+            pts = [[rng.randrange(n) for _ in range(npts)] for n in sh]
+            if npts > 1:
+                for row in pts:
+                    row[-1] = row[0]        # a duplicate point
+            for variant in ('point_eval', 'integrate'):
+                yield mk('SamplingOperator', 'nd shape={} domw={} npts={} variant={}'.format(
+                    shs, wtag, npts, variant),
+                    lambda S=S, pts=pts, variant=variant: odl.SamplingOperator(S, pts, variant),
+                    ('sampling', S, pts, variant))
+            for variant in ('char_fun', 'dirac'):
+                yield mk('WeightedSumSamplingOperator', 'nd shape={} ranw={} npts={} variant={}'.format(
+                    shs, wtag, npts, variant),
+                    lambda S=S, pts=pts, variant=variant: odl.WeightedSumSamplingOperator(S, pts, variant),
+                    ('wsum', S, pts, variant))
+            # trees over the new leaves: s * (Flatten_F o MatrixOperator(axis)) + Flatten_F o (v *)
+            if wtag in ('array',):
+                continue
+            axis = rng.randrange(len(sh))
+            M = rand_mat(rng, sh[axis], sh[axis], cplx)
+            sc = rng.choice([2.0, -0.5] + ([1 + 1j, -2j] if cplx else []))
+            v = rand_el(rng, S)
+            sM = ('matrixaxis', M, S, S, axis)
+            sF = ('flatten', S, 'F')
+
+            def tree(M=M, S=S, axis=axis, sc=sc, v=v):
+                F = odl.FlatteningOperator(S, 'F')
+                A = odl.MatrixOperator(M, domain=S, range=S, axis=axis)
+                return opm.OperatorSum(
+                    opm.OperatorLeftScalarMult(opm.OperatorComp(F, A), sc),
+                    opm.OperatorRightVectorMult(F, v))
+            yield mk('OperatorSum', 'nd-tree shape={} domw={} axis={} s={}'.format(
+                shs, wtag, axis, sclass(sc)), tree,
+                ('sum', ('lsc', ('comp', sF, sM), sc), ('rvec', sF, v, S)))
+            pts2 = [[rng.randrange(n) for _ in range(2)] for n in sh]
+
+            def tree2(M=M, S=S, axis=axis, pts2=pts2):
+                A = odl.MatrixOperator(M, domain=S, range=S, axis=axis)
+                return opm.OperatorComp(odl.SamplingOperator(S, pts2, 'integrate'), A)
+            yield mk('OperatorComp', 'nd-tree sampling-after-matrix shape={} domw={} axis={}'.format(
+                shs, wtag, axis), tree2,
+                ('comp', ('sampling', S, pts2, 'integrate'), sM))
 
 
 def small_leaf(rng, dom, ran=None):
@@ -1584,6 +1687,20 @@ def emit(tb, spec):
     elif k == 'cembed':
         _, S, s = spec
         t.append('cemb;{};{};{}'.format(tb.sp(S), tb.sp(S.complex_space), cs(s)))
+    elif k == 'matrixaxis':
+        # round 4: MatrixOperator along `axis` of an n-d tensor, shape (p, n, q) -> (p, m, q);
+        # `cw` mirrors the code's own test `getattr(weighting, 'const', None)` on both sides
+        _, M, D, R, axis = spec
+        M = np.asarray(M)
+        if D.ndim < 2 or M.ndim != 2:
+            raise NotModelled('matrixaxis on a 1-d space')
+        q = int(np.prod(D.shape[axis + 1:], dtype=int))
+        dc = getattr(D.weighting, 'const', None)
+        rc = getattr(R.weighting, 'const', None)
+        cw = '-' if dc is None or rc is None else fs(dc) + ',' + fs(rc)
+        rows = '~'.join(','.join(cs(z) for z in row) for row in M.tolist())
+        t.append('mataxis;{};{};{};{};{};{};{}'.format(tb.sp(D), tb.sp(R), D.shape[axis], M.shape[0],
+                                                     q, cw, rows))
     elif k == 'matrix':
         _, M, D, R = spec
         if D.ndim != 1 or R.ndim != 1:
@@ -1607,7 +1724,19 @@ def emit(tb, spec):
     elif k in ('sampling', 'wsum'):
         _, S, pts, variant = spec
         if S.ndim != 1:
-            raise NotModelled('sampling in > 1 dimensions')
+            # round 4: one index row per axis; the MODEL ravels them (`sampIdx`)
+            P = np.asarray(pts, dtype=int).reshape(S.ndim, -1)
+            R = odl.tensor_space(P.shape[1], dtype=S.dtype)
+            rows = '~'.join(','.join(str(int(v)) for v in row) for row in P.tolist())
+            sh = ','.join(str(n) for n in S.shape)
+            cv = getattr(S, 'cell_volume', 1.0)
+            if k == 'sampling':
+                t.append('sampnd;{};{};{};{};{};{}'.format(tb.sp(S), tb.sp(R), sh, rows,
+                                                         int(variant == 'integrate'), fs(cv)))
+            else:
+                t.append('wsumnd;{};{};{};{};{};{}'.format(tb.sp(R), tb.sp(S), sh, rows,
+                                                         int(variant == 'dirac'), fs(cv)))
+            return
         idx = [int(p) for p in np.atleast_1d(np.asarray(pts, dtype=int)).ravel()]
         R = odl.tensor_space(len(idx), dtype=S.dtype)
         cv = getattr(S, 'cell_volume', 1.0)
@@ -1619,9 +1748,15 @@ def emit(tb, spec):
                                                  int(variant == 'dirac'), fs(cv)))
     elif k in ('flatten', 'flatteninv'):
         _, S, order = spec
-        if order != 'C' and S.ndim > 1:
-            raise NotModelled('flattening in F order')
         R = odl.tensor_space(S.size, dtype=S.dtype)
+        if order != 'C' and S.ndim > 1:
+            # round 4: Fortran order = the permutation `cOfF shape` of the model
+            sh = ','.join(str(n) for n in S.shape)
+            if k == 'flatten':
+                t.append('flatf;{};{};{}'.format(tb.sp(S), tb.sp(R), sh))
+            else:
+                t.append('flatfinv;{};{};{}'.format(tb.sp(R), tb.sp(S), sh))
+            return
         if k == 'flatten':
             t.append('flat;{};{}'.format(tb.sp(S), tb.sp(R)))
         else:
@@ -1664,9 +1799,30 @@ def emit(tb, spec):
         raise NotModelled(k)
 
 
+def branch_name(spec):
+    k = spec[0]
+    if k == 'blocks':
+        return 'blocks/' + spec[1]
+    try:
+        if k in ('sampling', 'wsum') and spec[1].ndim > 1:
+            return k + '-nd'
+        if k in ('flatten', 'flatteninv') and spec[2] != 'C' and spec[1].ndim > 1:
+            return k + '-F'
+        if k == 'matrixaxis':
+            D, R = spec[2], spec[3]
+            if D is None:
+                return 'matrixaxis'
+            both = (getattr(D.weighting, 'const', None) is not None and
+                    getattr(R.weighting, 'const', None) is not None)
+            return 'matrixaxis/' + ('const' if both else 'bare-transpose')
+    except Exception:  # noqa
+        pass
+    return k
+
+
 def spec_branches(spec, acc=None):
     acc = set() if acc is None else acc
-    acc.add(spec[0] if spec[0] != 'blocks' else 'blocks/' + spec[1])
+    acc.add(branch_name(spec))
     for s in spec[1:]:
         if isinstance(s, tuple) and s and isinstance(s[0], str):
             spec_branches(s, acc)
@@ -2075,6 +2231,8 @@ def fill_spec(spec, A):
         return None
     if spec[0] == 'matrix':
         return ('matrix', spec[1], A.domain, A.range)
+    if spec[0] == 'matrixaxis' and spec[2] is None:
+        return ('matrixaxis', spec[1], A.domain, A.range, spec[4])
     return spec
 
 
@@ -2193,7 +2351,8 @@ def run(ctx):
                 'cembed', 'matrix', 'pwinner', 'pwinneradj', 'sampling', 'wsum', 'flatten',
                 'flatteninv', 'proj', 'projadj', 'sum', 'comp', 'lsc', 'rsc', 'lvec', 'rvec',
                 'flv', 'blocks/pso', 'blocks/bcast', 'blocks/red', 'blocks/diag', 'nonlin',
-                'opaque'}
+                'opaque', 'sampling-nd', 'wsum-nd', 'flatten-F', 'flatteninv-F',
+                'matrixaxis/const', 'matrixaxis/bare-transpose'}
     unhit = sorted(b for b in expected if 'model/' + b not in ctx.branches)
     unhit += sorted(b for b in EXPECTED_STRATA if b not in ctx.branches)
     ctx.extra['unhit_model_branches'] = unhit
